@@ -37,6 +37,12 @@
 (*   Stats      scale-stats d                                  (read-only)  *)
 (*   AllInOne   volume-to-precomputed-pyramid [--type T] [--encoding E]     *)
 (*                 [--downscaling-method M] VOL d                           *)
+(*   Mesh       mesh-to-precomputed --mesh-dir M --mesh-name NAME mesh.gii d  *)
+(*   Link       link-mesh-fragments TABLE.csv d                             *)
+(*              (help texts: --mesh-dir "must match the mesh key of the     *)
+(*              info file.  It will be written to the info file if not      *)
+(*              already present"; the link files list the fragments of each *)
+(*              label "in the mesh directory")                              *)
 (*   Edit       the user edits d/info by hand before any chunk is written   *)
 (*              (examples.rst: "info was edited to contain the desired      *)
 (*              sharding specification"; widening "data_type"): sets the    *)
@@ -81,6 +87,9 @@
 (* Deviation switches (CONSTANTS):                                          *)
 (*   AioForwardsMethod  TRUE = conforming; FALSE = the all-in-one command   *)
 (*                      ignores --downscaling-method (non-vacuity of (a))   *)
+(*   MeshRewritesInfo   "keepAll" = conforming: mesh-to-precomputed adds the *)
+(*                      mesh key to the info it found; "fromScratch" = it   *)
+(*                      writes an info that holds the mesh key only         *)
 (*   CopyInfoLayout     "byInfo" = conforming: convert-chunks --copy-info   *)
 (*                      stores chunks in the layout the copied info         *)
 (*                      declares; "byOptions" = the destination accessor is *)
@@ -95,6 +104,10 @@ CONSTANTS Dirs,        \* directory names, e.g. {"A", "B"}
           Methods,     \* subset of {"auto", "average", "majority", "stride"}
           Shardings,   \* subset of {"nosh", "s110"} (--sharding on GenInfo)
           Codes,       \* input orientation codes of slices-to-precomputed, e.g. {"RPI"}
+          MeshDirs,    \* --mesh-dir values, e.g. {"m1", "m2"} ({}: no mesh commands)
+          MeshNames,   \* fragment names (one input mesh per name), e.g. {"f1", "f2"}
+          Tables,      \* label tables of link-mesh-fragments, subset of {"t1", "t2"}
+          MeshRewritesInfo,   \* deviation switch, see below
           CfgSpace,    \* set of input classes [perfect : BOOLEAN (data type needs no
                        \* adjustment), nall : 1..3 (scales generated without --max-scales)]
           MaxLen,      \* program length bound
@@ -134,15 +147,20 @@ Alphabet ==
   \cup {Cmd("Edit", d, U, U, U, U, U, sh, U) : d \in Dirs, sh \in Shardings}
   \cup {CmdSlices(d, code) : d \in Dirs, code \in Codes}
   \cup {Cmd("HandInfo", d, U, U, U, U, U, "nosh", U) : d \in Dirs}   \* sharding: by Edit of the info
+  \cup {[Cmd("Mesh", d, U, U, U, U, md, U, U) EXCEPT !.code = nm] :
+          d \in Dirs, md \in MeshDirs, nm \in MeshNames}
+  \cup {Cmd("Link", d, U, U, U, U, t, U, U) : d \in Dirs, t \in Tables}
 
 \* ---- directory states ----------------------------------------------------
-NoInfo == [type |-> U, enc |-> U, n |-> 0, sh |-> U]
+NoInfo == [type |-> U, enc |-> U, n |-> 0, sh |-> U, mesh |-> "none"]   \* mesh: the "mesh" key
 EmptyDir == [fullres |-> "absent",      \* "absent" | "nosh" | "s110" (sharding it carries)
              transform |-> FALSE,
              info |-> NoInfo,
              chunks |-> [i \in Scales |-> "absent"],
              mis |-> {},                \* scales stored in a layout the info does not declare
-             blocked |-> {}]            \* scales (0: the info file) whose files cannot be created
+             blocked |-> {},            \* scales (0: the info file) whose files cannot be created
+             frags |-> {},              \* fragment files in the mesh directory (names)
+             links |-> {}]              \* link files <<label, table>> in the mesh directory
 
 Resolve(m, type) == IF m = "auto" THEN (IF type = "image" THEN "average" ELSE "stride") ELSE m
 Down(m, c) == "D" \o m \o "(" \o c \o ")"
@@ -165,7 +183,8 @@ RunGenInfo(c, D, cf) ==
 RunGenScales(c, D, cf) ==
   IF D[c.src].fullres = "absent" \/ D[c.d].info.n # 0 \/ 0 \in D[c.d].blocked THEN Res(D, 1)
   ELSE Res([D EXCEPT ![c.d].info = [type |-> c.type, enc |-> c.enc,
-                                    n |-> NScales(c.max, cf), sh |-> D[c.src].fullres]], 0)
+                                    n |-> NScales(c.max, cf), sh |-> D[c.src].fullres,
+                                    mesh |-> "none"]], 0)
 
 RunVol(c, D) ==
   IF D[c.d].info.n = 0 \/ 1 \in D[c.d].blocked THEN Res(D, 1)
@@ -231,7 +250,7 @@ RunAllInOne(c, D, cf) ==
   ELSE LET k == NScales("all", cf)
            m == Resolve(IF AioForwardsMethod THEN c.m ELSE "auto", c.type)
            base == [D[c.d].chunks EXCEPT ![1] = "map"]
-       IN Res([D EXCEPT ![c.d].info = [type |-> c.type, enc |-> c.enc, n |-> k, sh |-> "nosh"],
+       IN Res([D EXCEPT ![c.d].info = [type |-> c.type, enc |-> c.enc, n |-> k, sh |-> "nosh", mesh |-> "none"],
                         ![c.d].chunks = Pyramid(base, k, m),
                         ![c.d].mis = {}], 0)
 
@@ -240,6 +259,40 @@ RunAllInOne(c, D, cf) ==
 RunEdit(c, D) ==
   IF D[c.d].info.n = 0 \/ \E i \in Scales : D[c.d].chunks[i] # "absent" THEN Res(D, 1)
   ELSE Res([D EXCEPT ![c.d].info.sh = IF c.sh = "keep" THEN @ ELSE c.sh], 0)
+
+\* the rows of a label table: <<label, fragment names>>
+TableRows(t) == IF t = "t1" THEN << <<1, <<"f1">>>> >>
+                ELSE << <<1, <<"f1">>>>, <<2, <<"f1", "f2">>>> >>
+
+\* mesh-to-precomputed: needs an info; writes the mesh key when the info has none; refuses another
+\* directory than the key; the fragment file is created exclusively; the sharded accessor
+\* cannot create the mesh directory (the key is written, then the command fails) - it can
+\* write into one that exists from the time the info was not sharded
+RunMesh(c, D) ==
+  LET ds == D[c.d] IN
+  IF ds.info.n = 0 THEN Res(D, 1)
+  ELSE IF ds.info.mesh # "none" /\ ds.info.mesh # c.m THEN Res(D, 1)
+  ELSE LET keyed == IF ds.info.mesh # "none" THEN ds.info
+                    ELSE IF MeshRewritesInfo = "fromScratch" THEN [NoInfo EXCEPT !.mesh = c.m]
+                    ELSE [ds.info EXCEPT !.mesh = c.m]
+           D1 == [D EXCEPT ![c.d].info = keyed]
+           \* the sharded accessor does not create the mesh directory: it must exist already
+           nodir == ds.info.sh # "nosh" /\ ds.frags = {} /\ ds.links = {}
+       IN IF nodir \/ c.code \in ds.frags THEN Res(D1, 1)
+          ELSE Res([D1 EXCEPT ![c.d].frags = @ \cup {c.code}], 0)
+
+\* link-mesh-fragments: needs the mesh key; one exclusively created JSON file per row, in order
+RECURSIVE LinkRows(_, _, _)
+LinkRows(ls, rows, t) ==
+  IF rows = << >> THEN [links |-> ls, exit |-> 0]
+  ELSE IF \E p \in ls : p[1] = rows[1][1] THEN [links |-> ls, exit |-> 1]
+  ELSE LinkRows(ls \cup {<<rows[1][1], t>>}, Tail(rows), t)
+RunLink(c, D) ==
+  LET ds == D[c.d] IN
+  IF ds.info.n = 0 \/ ds.info.mesh = "none"
+     \/ (ds.info.sh # "nosh" /\ ds.frags = {} /\ ds.links = {}) THEN Res(D, 1)
+  ELSE LET r == LinkRows(ds.links, TableRows(c.m), c.m)
+       IN Res([D EXCEPT ![c.d].links = r.links], r.exit)
 
 RunObstruct(c, D) ==
   LET ds == D[c.d] IN
@@ -263,6 +316,8 @@ Run(c, D, cf) ==
     [] c.op = "Slices"    -> RunSlices(c, D)
     [] c.op = "HandInfo"  -> RunHandInfo(c, D)
     [] c.op = "Obstruct"  -> RunObstruct(c, D)
+    [] c.op = "Mesh"      -> RunMesh(c, D)
+    [] c.op = "Link"      -> RunLink(c, D)
     [] c.op = "Damage"    -> IF D[c.d].info.n = 0 \/ D[c.d].chunks[1] = "absent" THEN Res(D, 1)
                              ELSE Res([D EXCEPT ![c.d].mis = @ \cup {1}], 0)
     [] c.op = "Restore"   -> IF 1 \notin D[c.d].mis THEN Res(D, 1)
@@ -346,6 +401,9 @@ Complete(c, D) ==
     [] c.op = "Slices"    -> ds.info.n # 0 /\ Readable(ds, 1)
     [] c.op = "HandInfo"  -> ds.fullres # "absent"
     [] c.op = "Obstruct"  -> TRUE
+    [] c.op = "Mesh"      -> ds.info.n # 0 /\ ds.info.mesh = c.m /\ c.code \in ds.frags
+    [] c.op = "Link"      -> /\ ds.info.n # 0 /\ ds.info.mesh # "none"
+                             /\ \A k \in 1..Len(TableRows(c.m)) : <<TableRows(c.m)[k][1], c.m>> \in ds.links
     [] c.op = "Damage"    -> TRUE
     [] c.op = "Restore"   -> TRUE
     [] c.op = "Rechunk"   -> ds.info.n # 0
@@ -370,6 +428,30 @@ ConvertPreserves ==
        LET r == Run(c, dirs, cfg) IN
        Succ(r.exit) => \A i \in 1..r.dirs[c.d].info.n :
                           r.dirs[c.d].chunks[i] = dirs[c.src].chunks[i]
+
+\* ---- mesh commands (growth beyond the listed properties; from the tool help texts) ----------
+MeshCmds == {c \in Alphabet : c.op \in {"Mesh", "Link"}}
+CoreInfo(i) == [i EXCEPT !.mesh = "none"]
+\* a mesh command never changes the scales / type / data type of the info and never touches the
+\* chunk storage (nor another directory)
+InfoScalesPreserved ==
+  \A c \in MeshCmds :
+     LET r == Run(c, dirs, cfg) IN
+     /\ CoreInfo(r.dirs[c.d].info) = CoreInfo(dirs[c.d].info)
+     /\ r.dirs[c.d].chunks = dirs[c.d].chunks /\ r.dirs[c.d].mis = dirs[c.d].mis
+     /\ \A d \in Dirs \ {c.d} : r.dirs[d] = dirs[d]
+\* once written the mesh key never changes; a command naming another directory fails and
+\* changes nothing
+MeshKeyStable ==
+  \A c \in Alphabet :
+     LET r == Run(c, dirs, cfg) IN
+     /\ dirs[c.d].info.mesh # "none" => r.dirs[c.d].info.mesh = dirs[c.d].info.mesh
+     /\ (c.op = "Mesh" /\ dirs[c.d].info.mesh \notin {"none", c.m}) => (r.exit # 0 /\ r.dirs = dirs)
+\* no link file without the mesh key
+LinksNeedKey ==
+  /\ \A d \in Dirs : (dirs[d].links # {} \/ dirs[d].frags # {}) => dirs[d].info.mesh # "none"
+  /\ \A c \in MeshCmds : (c.op = "Link" /\ dirs[c.d].info.mesh = "none")
+                             => LET r == Run(c, dirs, cfg) IN r.exit # 0 /\ r.dirs = dirs
 
 \* ---- design sanity ----------------------------------------------------------
 TypeOK ==
